@@ -18,6 +18,10 @@ PANIC_FNS = {"panic_fmt", "panic", "panic_display", "unreachable_display", "pani
              "todo", "unreachable"}
 
 
+TRANSPARENT = ("std::mem::ManuallyDrop<", "std::mem::MaybeDangling<", "std::mem::MaybeUninit<", "std::ptr::Unique<", "std::ptr::NonNull<",
+               "std::cell::UnsafeCell<", "core::mem::ManuallyDrop<", "core::mem::MaybeUninit<")
+
+
 def f64_from_bits(b):
     return struct.unpack("<d", struct.pack("<Q", b))[0]
 
@@ -249,9 +253,17 @@ class Machine:
     def place_ref(self, fr, toks):
         cont, key = fr.locals, toks[0][1]
         variant = None
+        wrapper = False        # the place reached so far has a transparent wrapper type (MaybeUninit, ManuallyDrop, ...)
         for t in toks[1:]:
             cur = cont[key]
             k = t[0]
+            if k == "field":
+                was = wrapper
+                wrapper = t[2].startswith(TRANSPARENT)
+                if was or (wrapper and not isinstance(cur, Agg)):
+                    continue                      # projection through / into a transparent wrapper: same storage
+            else:
+                wrapper = False
             if k == "deref":
                 if isinstance(cur, Ref): cont, key = cur.cont, cur.key
                 elif isinstance(cur, BoxObj): cont, key = cur.fields, 0
